@@ -17,6 +17,7 @@ import (
 	"verifharness/gen"
 	"verifharness/inproc"
 	"verifharness/kit"
+	"verifharness/respx"
 	"verifharness/srv"
 )
 
@@ -74,6 +75,35 @@ func reseed() error {
 	}
 	return nil
 }
+
+// reseedFast restores the eight seeded keys in one pipelined write (the enumeration must meet every
+// input with the same keyspace: an earlier input may have deleted, renamed or retyped a seeded key).
+func reseedFast() error {
+	var stream []byte
+	n := 0
+	del := []string{"DEL"}
+	del = append(del, seededKeys...)
+	cmds := append([][]string{del}, seedCmds...)
+	for _, c := range cmds {
+		b := make([][]byte, len(c))
+		for i, a := range c {
+			b[i] = []byte(a)
+		}
+		stream = append(stream, respx.EncodeCommand(b)...)
+		n++
+	}
+	if err := main.Write(stream, 3*time.Second); err != nil {
+		return err
+	}
+	for i := 0; i < n; i++ {
+		if _, err := main.Read(3 * time.Second); err != nil {
+			return err
+		}
+	}
+	return nil
+}
+
+var sinceWipe int
 
 // blockClass classifies documented blocking commands by their timeout argument.
 func blockClass(cmd kit.Cmd) (blocking bool, wait time.Duration, forever bool) {
@@ -263,6 +293,15 @@ func (ta *tally) run(t *testing.T, cmd kit.Cmd) {
 	}
 	ta.evals++
 	ta.distinct++
+	if ensureServer() == nil {
+		sinceWipe++
+		if sinceWipe >= 500 {
+			sinceWipe = 0
+			_ = reseed()
+		} else if reseedFast() != nil {
+			stopServer()
+		}
+	}
 	f := tryInput(cmd)
 	if f == nil {
 		return
@@ -324,6 +363,22 @@ func TestExhaustive(t *testing.T) {
 				}
 				ta.run(t, kit.MkCmd(append([]string{n}, args...)...))
 			})
+		}
+	}
+	// option keywords with numeric extremes behind the type check: <cmd> <key of its type> [a] <keyword> <number>
+	keywords := []string{"nx", "xx", "gt", "lt", "ch", "incr", "get", "ex", "px", "exat", "keepttl", "rank", "count", "maxlen", "minid", "limit",
+		"nomkstream", "~", "=", "*", "withscores", "rev", "byscore", "bylex", "left", "right", "withvalues"}
+	for _, n := range names {
+		k := prefKey(n)
+		for _, kw := range keywords {
+			for _, x := range extremes {
+				for _, form := range [][]string{{n, k, kw, x}, {n, k, "a", kw, x}, {n, k, "0", "-1", kw, x}, {n, k, kw, x, "5-9", "f", "v"}} {
+					if !mine() {
+						continue
+					}
+					ta.run(t, kit.MkCmd(form...))
+				}
+			}
 		}
 	}
 	kit.C.Bulk(ta.evals, ta.distinct, "exhaustive-inputs")
@@ -400,6 +455,31 @@ var templates = [][]string{
 var numbers = []string{"0", "1", "-1", "2", "3", "-2", "100", "9223372036854775807", "-9223372036854775808", "9223372036854775808",
 	"4611686018427387904", "-4611686018427387905", "1e309", "nan", "inf", "-inf", "0.5", "", "x", "(1", "(", "-0", "+1", "007"}
 
+// prefKey: the seeded key whose type the command operates on (so that option parsing behind the type
+// check is reached).
+func prefKey(name string) string {
+	name = strings.ToLower(name)
+	switch {
+	case name == "set" || name == "setex" || name == "setnx" || name == "setrange" || name == "strlen" || name == "getrange" || name == "get" || name == "append":
+		return "str"
+	case strings.HasPrefix(name, "incr") || strings.HasPrefix(name, "decr"):
+		return "int"
+	case strings.HasPrefix(name, "l") || strings.HasPrefix(name, "rp") || strings.HasPrefix(name, "bl") || strings.HasPrefix(name, "br"):
+		return "list"
+	case strings.HasPrefix(name, "s"):
+		return "set"
+	case strings.HasPrefix(name, "h"):
+		return "hash"
+	case strings.HasPrefix(name, "z"):
+		return "zset"
+	case strings.HasPrefix(name, "x"):
+		return "stream"
+	}
+	return "str"
+}
+
+var extremes = []string{"9223372036854775807", "-9223372036854775808", "9223372036854775808", "-1", "0", "4611686018427387904", "-4611686018427387905", "1e309"}
+
 func fromTemplate(t *rapid.T) kit.Cmd {
 	tpl := rapid.SampledFrom(templates).Draw(t, "tpl")
 	args := make([]string, 0, len(tpl))
@@ -408,9 +488,17 @@ func fromTemplate(t *rapid.T) kit.Cmd {
 		case i == 0:
 			args = append(args, gen.CaseOf(t, slot))
 		case slot == "K":
-			args = append(args, rapid.SampledFrom(append(append([]string{}, seededKeys...), "missing", "")).Draw(t, "K"))
+			if rapid.IntRange(0, 2).Draw(t, "pref") > 0 {
+				args = append(args, prefKey(tpl[0]))
+			} else {
+				args = append(args, rapid.SampledFrom(append(append([]string{}, seededKeys...), "missing", "")).Draw(t, "K"))
+			}
 		case slot == "N":
-			args = append(args, rapid.SampledFrom(numbers).Draw(t, "N"))
+			if rapid.Bool().Draw(t, "extreme") {
+				args = append(args, rapid.SampledFrom(extremes).Draw(t, "X"))
+			} else {
+				args = append(args, rapid.SampledFrom(numbers).Draw(t, "N"))
+			}
 		case slot == "V":
 			args = append(args, gen.Value(t, "V"))
 		case slot == "I":
